@@ -320,13 +320,40 @@ struct D : B {};
 
 using CD0 = class_declaration<A, cat_policy>;
 using CD1 = class_declaration<B, A, cat_policy>;
-using CD2 = class_declaration<C, A, cat_policy>;
-using CD3 = class_declaration<D, B, A, cat_policy>;
+// the type-list form, policy last (docs: class_declaration<types<...>>)
+using CD2 = class_declaration<detail::types<C, A, cat_policy>>;
+using CD3 = class_declaration<detail::types<D, B, A, cat_policy>>;
+
+// a second policy with registrations of its own, and the default policy with
+// none: nothing done for cat_policy may show up in their catalogs (C14)
+struct other_policy : policy::basic_policy<
+                          other_policy, policy::std_rtti,
+                          policy::vptr_vector<other_policy>,
+                          policy::vectored_error<other_policy>> {};
+static use_classes<A, B, other_policy> other_classes;
 
 struct K0;
 struct K1;
 using M0 = method<K0, void(virtual_<A&>), cat_policy>;
 using M1 = method<K1, void(virtual_<A&>, virtual_<A&>), cat_policy>;
+
+using OM0 = method<K0, void(virtual_<A&>), other_policy>;
+
+template<class Policy>
+static std::vector<const void*> catalogs_of() {
+    std::vector<const void*> v;
+    for (auto& ci : Policy::classes) {
+        v.push_back(&ci);
+    }
+    v.push_back(nullptr);
+    for (auto& mi : Policy::methods) {
+        v.push_back(&mi);
+        for (auto& di : mi.specs) {
+            v.push_back(&di);
+        }
+    }
+    return v;
+}
 
 static void f0(A&) {
 }
@@ -409,8 +436,16 @@ static Outcome run_catalogs(const json& j) {
         }
     };
     std::set<std::pair<int, int>> ever;
+    (void)&OM0::fn;
+    const auto other_before = catalogs_of<other_policy>();
+    const auto default_before = catalogs_of<default_policy>();
 
     auto check = [&]() -> std::string {
+        if (catalogs_of<other_policy>() != other_before ||
+            catalogs_of<default_policy>() != default_before) {
+            return "catalog-isolation: registering or unregistering for one "
+                   "policy changed the catalogs of another policy";
+        }
         std::vector<const detail::class_info*> cs;
         for (auto& ci : cat_policy::classes) {
             cs.push_back(&ci);
@@ -673,7 +708,7 @@ static std::vector<json> shrink_ops(const json& j) {
 
 static std::optional<vf::Property>
 lookup(const std::string& id, const std::string& variant) {
-    if (id != "C18") {
+    if (id != "C18" && !(id == "C14" && variant == "catalogs")) {
         return std::nullopt;
     }
     vf::Property p;
